@@ -499,7 +499,7 @@ def validate_translator(prop, claims, seed, pool, max_claims=120):
                 outs = json.loads(line[len('BATCH-RESULT '):])
     except subprocess.TimeoutExpired:
         pass
-    rep = dict(claims_sampled=len(sel), compared=0, values_compared=0, mismatches=[], skipped=len(sel) - len(usable), native_failures=[])
+    rep = dict(claims_sampled=len(sel), compared=0, values_compared=0, mismatches=[], skipped=len(sel) - len(usable), native_failures=[], native_boolean_false=[])
     if outs is None:
         rep['error'] = 'native batch did not finish'
         return rep
@@ -508,6 +508,8 @@ def validate_translator(prop, claims, seed, pool, max_claims=120):
             rep['skipped'] += 1
             continue
         rep['compared'] += 1
+        for v in [v for v in o.get('violations', []) if str(v[1]) == 'condition false'][:2]:
+            rep['native_boolean_false'].append(f'{n}: {v[0]}')
         for v in [v for v in o.get('violations', []) if str(v[1]) != 'condition false'][:2]:
             # (boolean library predicates with eps-level internal thresholds are exact over R but not robust in floats at
             # random data: h.true failures are not promoted; value comparisons, must-raise and exceptions are)
@@ -857,6 +859,8 @@ def main(argv=None):
         if validation is not None:
             print(f"  translator validation: {validation['compared']} claims / {validation['values_compared']} values compared, "
                   f"{len(validation['mismatches'])} mismatches, {validation['skipped']} skipped")
+            for nb in validation.get('native_boolean_false', [])[:10]:
+                print(f'    NATIVE-BOOLEAN-FALSE (float run of a predicate that is exact over R; not a violation): {nb}')
             for mm in validation['mismatches'][:10]:
                 print('    VALIDATION-MISMATCH:', mm[:300])
 
